@@ -92,6 +92,10 @@ func runC16(tier string, seed uint64) {
 		newTwin("base-fallback-base-itself", "bases", bases),
 		newTwin("base-fallback-multilabel", "bases", bases),
 		newTwin("base-fallback-unrelated", "bases", bases),
+		// one base is a suffix of another: the longer one has to be reached whatever the order
+		newTwin("base-nested-short-first", "bases", []string{"example.com", "s3.example.com"}),
+		newTwin("base-nested-long-first", "bases", []string{"s3.example.com", "example.com"}),
+		newTwin("base-nested-short-host", "bases", []string{"s3.example.com", "example.com"}),
 		newTwin("path-extra-leading-slash", "none", nil),
 		newTwin("path-trailing-slash", "none", nil),
 	}
@@ -163,7 +167,9 @@ func runC16(tier string, seed uint64) {
 			switch t.name {
 			case "host":
 				host, path = l.bucket+".s3.example.com", l.hostStyle()
-			case "base1", "base2":
+			case "base-nested-short-host":
+				host, path = l.bucket+".example.com", l.hostStyle()
+			case "base1", "base2", "base-nested-short-first", "base-nested-long-first":
 				host, path = l.bucket+".s3.example.com", l.hostStyle()
 			case "base2-second":
 				host, path = l.bucket+".other.test:9000", l.hostStyle()
@@ -208,7 +214,7 @@ func runC16(tier string, seed uint64) {
 			nontrivial(t.name + "|" + l.method + "|" + l.query + "|" + l.bucket + "|" + l.key)
 		}
 	}
-	sample("each logical request (create/put/get/range/head/delete/list V1+V2/versions/location/versioning/multi-delete/copy/multipart initiate+part+list+abort/unknown methods over 2 buckets x 6 keys incl. spaces, UTF-8, dots, nesting) is sent to 11 twin servers: path-style; host-bucket; host-bucket-base with one base, two bases (first and second base, configured with stray dots and a port), fallbacks (localhost, the base itself, multi-label prefix, unrelated host); path-style with an extra leading and a trailing slash")
+	sample("each logical request (create/put/get/range/head/delete/list V1+V2/versions/location/versioning/multi-delete/copy/multipart initiate+part+list+abort/unknown methods over 2 buckets x 6 keys incl. spaces, UTF-8, dots, nesting) is sent to 14 twin servers: path-style; host-bucket; host-bucket-base with one base, two bases (first and second base, configured with stray dots and a port), fallbacks (localhost, the base itself, multi-label prefix, unrelated host), two bases one of which is a suffix of the other (both orders, both hosts); path-style with an extra leading and a trailing slash")
 }
 
 func uniq(xs []string, skip bool) []string {
